@@ -167,13 +167,17 @@ async fn read_http_header(stream: &mut TcpStream) -> Result<(Vec<u8>, Vec<u8>)> 
             ));
         }
         buf.extend_from_slice(&tmp[..n]);
-        if buf.len() > MAX_HEADER_SIZE {
-            return Err(AnyTlsError::Protocol("HTTP header too large".to_string()));
-        }
+        // the limit applies to the header block, not to body bytes that the same read returned
         if let Some(end) = find_header_end(&buf) {
+            if end > MAX_HEADER_SIZE {
+                return Err(AnyTlsError::Protocol("HTTP header too large".to_string()));
+            }
             let header = buf[..end].to_vec();
             let remaining = buf[end..].to_vec();
             return Ok((header, remaining));
+        }
+        if buf.len() > MAX_HEADER_SIZE {
+            return Err(AnyTlsError::Protocol("HTTP header too large".to_string()));
         }
     }
 }
